@@ -8,14 +8,24 @@ Lean model run on the same decoded packets.  Geometry, PDR gate, greedy outcome 
 opaque inputs recorded from the real run.  Small line/mesh topologies of 3-5 real routers share an in-memory ether.
 Oracle: `StationOracle` (per (SO,SN) window bookkeeping independent of the code, byte-diff of every forwarded copy
 against its cause, RHL rules, CBF rule) and a global transmission bound for the topologies.
+
+Round 4: stations WITH a verify service (real PKI, real ECDSA, `sec_common`).  Histories mix unsecured frames with secured
+ones (Basic Header NH = 2 + EtsiTs103097Data-Signed around common header + extended header + payload: signer digest /
+certificate, false signature, unknown signer, undecodable), with processing aborted AFTER verification (hop limit > MHL,
+indication callback raising), on two persistent receive threads and nested (a reception on another thread while the first
+thread sits in its indication callback).  The model side is the wire-level model `RouterSec.lean` (`wcfg / wrx / wfire`);
+every forwarded frame - immediate or from the CBF buffer - is byte-compared with the frame that caused it, secured ones
+octet for octet behind the RHL.
 """
 from __future__ import annotations
 
+import queue
 import threading
 import zlib
 
 from common import Infra, corpus
 import realstack as rs
+import sec_common as sc
 from props import c08
 from props.c08 import addr_of, addr_int, lpv, spv, frame, mid_of, W, HALF, ITS_EPOCH_MS
 
@@ -29,7 +39,7 @@ from flexstack.geonet.gbc_extended_header import GBCExtendedHeader
 from flexstack.geonet.guc_extended_header import GUCExtendedHeader
 from flexstack.geonet.ls_extended_header import LSRequestExtendedHeader, LSReplyExtendedHeader
 from flexstack.geonet.position_vector import LongPositionVector
-from flexstack.geonet.mib import MIB, AreaForwardingAlgorithm
+from flexstack.geonet.mib import MIB, AreaForwardingAlgorithm, GnSecurity
 from flexstack.geonet.router import Router
 import flexstack.geonet.router as router_mod
 
@@ -42,6 +52,14 @@ TRUSTED = [
     "decoded-packet level: the wire codecs are covered by C02; here every forwarded frame is decoded with the repository's "
     "decoders and additionally byte-compared with its cause",
     "threading.Timer is replaced by a virtual timer fired by the harness (arbitrary expiry points)",
+    "wire level: SN-VERIFY is an opaque input of the model (outcome recorded from the real VerifyService of the station; "
+    "the verify path itself is the subject of C09-C12); a secured message is an opaque identity (its octets are "
+    "byte-compared by the oracle); the receive context is modelled per receive thread, receptions of different threads are "
+    "serialised by the harness (one inside the other's indication callback at most) - no preemptive interleaving of two "
+    "handlers",
+    "regenerated structural facts (harness/gen_router.py -> Generated/RouterRx.lean): the receive context is a "
+    "threading.local written by process_security_header only, reset in a finally around the dispatch, read by "
+    "_forward_pdu only, which only forwarders call",
 ]
 ASSUMPTIONS = [
     "the LS retransmit timer (_ls_retransmit: resend / give up) is not modelled and never fired by the harness; what "
@@ -123,14 +141,86 @@ def _remove_area_spy():
         Router._compute_area_size_m2 = _ORIG_AREA
 
 
+# ------------------------------------------------------------------------------------------------ secured frames
+
+SEC_OK = ("d", "c")                 # modes whose verification must succeed at a station holding the world's trust anchors
+SEC_MODES = ("d", "c", "bad", "unk", "junk")
+
+
+class SecWorld:
+    """one PKI per process (root -> AA -> authorization tickets, real ECDSA): `at1` is stored at every verifying station
+    (signer = digest), `at2` is presented as signer certificate, `at3` is unknown to the stations.  Secured messages are
+    cached per (plain message, mode, generation time) so that an exact duplicate of a secured frame is byte-identical."""
+    _inst = None
+
+    @classmethod
+    def get(cls):
+        if cls._inst is None:
+            cls._inst = cls()
+        return cls._inst
+
+    def __init__(self):
+        with rs.quiet():
+            self.pki = sc.PKI()
+            live = dict(start=0, duration=("years", 100))
+            self.root = self.pki.root("root", **live)
+            self.aa = self.pki.issue(self.root, "aa", issue=[sc.perm_all(1)], **live)
+            self.at1, self.at2, self.at3 = (self.pki.issue(self.aa, app=[36, 37, 99], **live) for _ in range(3))
+        self.cache = {}
+
+    def secure(self, plain_fr: bytes, mode: str, gen_ms: int) -> bytes:
+        """the secured version of an unsecured frame: same Basic Header with NH = 2, then the secured message"""
+        inner = bytes(plain_fr[4:])
+        ck = (inner, mode, gen_ms)
+        if ck not in self.cache:
+            hi = {"psid": 99, "generationTime": max(gen_ms, 1) * 1000}
+            be = self.pki.backend
+            if mode == "d":
+                m = sc.make_signed(be, self.at1.key_id, hi, inner, ("digest", self.at1.as_hashedid8()))
+            elif mode == "c":
+                m = sc.make_signed(be, self.at2.key_id, hi, inner, ("certificate", [self.at2.certificate]))
+            elif mode == "bad":      # the signature of ANOTHER message by the same ticket
+                other = sc.decode_signed(sc.make_signed(be, self.at1.key_id, hi, inner + b"x", ("digest", self.at1.as_hashedid8())))
+                m = sc.make_signed(be, self.at1.key_id, hi, inner, ("digest", self.at1.as_hashedid8()),
+                                   signature=other[0]["signature"])
+            elif mode == "unk":
+                m = sc.make_signed(be, self.at3.key_id, hi, inner, ("digest", self.at3.as_hashedid8()))
+            elif mode == "junk":
+                m = b"\x03\x81\x00" + bytes((zlib.crc32(inner) >> s) & 255 for s in (0, 8, 16, 24)) * 3
+            else:
+                raise Infra(f"unknown secured mode {mode}")
+            self.cache[ck] = m
+            if len(self.cache) > 20000:
+                self.cache.clear()
+                self.cache[ck] = m
+        return bytes([(plain_fr[0] & 0xF0) | 2]) + bytes(plain_fr[1:4]) + self.cache[ck]
+
+    def station(self):
+        return sc.RealStation(self.pki.backend, [self.root], [self.aa], [self.at1])
+
+
+def plain_view(fr: bytes):
+    """(unsecured view of a frame: Basic Header with NH = 1 + the plain message, received secured?) - the plain message of a
+    secured frame is taken out by the independent coder of sec_common, not by the verify path"""
+    if fr[0] & 0x0F == 2:
+        dec = sc.decode_signed(bytes(fr[4:]))
+        if dec is None:
+            raise Infra("undecodable secured frame in harness")
+        content = dec[0]["tbsData"]["payload"]["data"]["content"]
+        return bytes([(fr[0] & 0xF0) | 1]) + bytes(fr[1:4]) + bytes(content[1]), True
+    return bytes(fr), False
+
+
 # ------------------------------------------------------------------------------------------------ decode
 
 def decode(fr: bytes):
-    """decoded-packet view of a frame (the model's `Pkt`), via the repository's decoders"""
+    """decoded-packet view of a frame (the model's `Pkt`), via the repository's decoders; a secured frame is viewed through
+    its plain message (`sec` = 1)"""
+    fr, was_sec = plain_view(fr)
     bh = BasicHeader.decode_from_bytes(fr[0:4])
     ch = CommonHeader.decode_from_bytes(fr[4:12])
     ext = fr[12:]
-    d = dict(rhl=bh.rhl, mhl=ch.mhl, scf=int(bool(ch.tc.scf)), sn=0, de=0, detst=0, delat=0, delon=0)
+    d = dict(rhl=bh.rhl, mhl=ch.mhl, scf=int(bool(ch.tc.scf)), sn=0, de=0, detst=0, delat=0, delon=0, sec=int(was_sec))
     zero = bytearray(fr)
     zero[3] = 0
     if ch.ht == HeaderType.BEACON:
@@ -164,6 +254,13 @@ def decode(fr: bytes):
     return d
 
 
+def try_decode(fr: bytes):
+    try:
+        return decode(fr)
+    except Exception:  # noqa: BLE001 - a frame put on the link layer that does not even decode
+        return None
+
+
 def pkt_str(d):
     return (f"{d['kind']} {d['rhl']} {d['mhl']} {d['so']} {d['tst']} {d['lat']} {d['lon']} {d['sn']} {d['de']} "
             f"{d['detst']} {d['delat']} {d['delon']} {d['scf']} {d['body']}")
@@ -171,19 +268,93 @@ def pkt_str(d):
 
 # ------------------------------------------------------------------------------------------------ real station
 
+class CallbackFault(RuntimeError):
+    """raised by the upper layer's indication callback (fault injection)"""
+
+
+class Worker:
+    """a persistent receive thread: callables are executed one at a time on it, the caller waits for the result (the
+    thread keeps its `threading.local` state from one reception to the next, as a link layer's receive loop does)"""
+
+    def __init__(self):
+        self.q = queue.Queue()
+        self.t = threading.Thread(target=self._loop, daemon=True)
+        self.t.start()
+
+    def _loop(self):
+        while True:
+            item = self.q.get()
+            if item is None:
+                return
+            fn, box, done = item
+            try:
+                box.append(("ok", fn()))
+            except BaseException as e:  # noqa: BLE001 - handed to the caller
+                box.append(("err", e))
+            done.set()
+
+    def call(self, fn):
+        box, done = [], threading.Event()
+        self.q.put((fn, box, done))
+        if not done.wait(120):
+            raise Infra("receive thread of the harness did not return")
+        if box[0][0] == "err":
+            raise box[0][1]
+        return box[0][1]
+
+    def close(self):
+        self.q.put(None)
+        self.t.join(5)
+
+
 class Station:
     def __init__(self, clock, cfg, self_addr, pos=EGO):
         self.clock, self.cfg, self.self_addr = clock, cfg, self_addr
+        self.has_verify, self.enabled = (int(x) for x in cfg.get("sec", (0, 0)))
         mib = MIB(itsGnLocalGnAddr=addr_of(self_addr), itsGnLifetimeLocTE=cfg["lifetime_s"], itsGnDPLLength=cfg["dpl"],
                   itsGnAreaForwardingAlgorithm=AreaForwardingAlgorithm.CBF if cfg["cbf"] else AreaForwardingAlgorithm.SIMPLE,
-                  itsGnMaxPacketDataRate=cfg["pdr_max"])
-        self.r = Router(mib)
+                  itsGnMaxPacketDataRate=cfg["pdr_max"],
+                  itsGnSecurity=GnSecurity.ENABLED if self.enabled else GnSecurity.DISABLED)
+        self.verdicts = []
+        vs = None
+        if self.has_verify:
+            with rs.quiet():
+                self.sec = SecWorld.get().station()
+            vs = self.sec.vs
+            orig_verify = vs.verify
+
+            def spy_verify(request):
+                self.verdicts.append(None)
+                conf = orig_verify(request)
+                self.verdicts[-1] = conf.report
+                return conf
+            vs.verify = spy_verify
+        self.r = Router(mib, verify_service=vs)
         self.log, self.timers, self.dead = [], {}, {}
         self.r.link_layer = _LL(self)
-        self.r.register_indication_callback(lambda ind: self.log.append(("deliver", ind)))
+        self.cb_raises = False
+        self.nested = None            # a reception to perform on another thread from inside the indication callback
+        self.nested_result = None
+        self.snap = None
+        self.cur_so = None
+
+        def callback(ind):
+            self.log.append(("deliver", ind))
+            raises, self.cb_raises = self.cb_raises, False
+            if self.nested is not None:
+                job, self.nested = self.nested, None
+                # what the reception in progress has done so far (the callback is the last step of the dispatch)
+                snap = (self.buf_str(True), self.pdr_bit(self.cur_so))
+                res = job()
+                self.snap, self.nested_result = snap, res
+            if raises:
+                raise CallbackFault("upper layer failed while handling the indication")
+        self.r.register_indication_callback(callback)
         self.r.ego_position_vector = lpv(self_addr, cfg["base"], pos[0], pos[1])
         VTimer.stations[id(self.r)] = self
         self.f_calls, self.greedy_calls = [], []
+        self.mids = {}                # secured message (octets behind the Basic Header) -> small identity for the model
+        self.workers = {}
         gf, gg = self.r.gn_geometric_function_f, self.r.gn_greedy_forwarding
 
         def spy_f(*a, **k):
@@ -206,6 +377,22 @@ class Station:
             self.log.append(("lsreq", sought.encode_to_int()))
             return glsr(sought, buffered_request)
         self.r.gn_data_request_guc, self.r.gn_ls_request = spy_greq, spy_lsr
+
+    def close(self):
+        for w in self.workers.values():
+            w.close()
+        self.workers = {}
+
+    def on_thread(self, thr, fn):
+        """thread 0 is the caller's thread; every other receive thread is a persistent worker of this station"""
+        if not thr:
+            return fn()
+        if thr not in self.workers:
+            self.workers[thr] = Worker()
+        return self.workers[thr].call(fn)
+
+    def mid(self, msg: bytes) -> int:
+        return self.mids.setdefault(bytes(msg), len(self.mids) + 1)
 
     def set_now(self, now):
         self.clock.ms = now + ITS_EPOCH_MS - 5000
@@ -244,10 +431,28 @@ class Station:
         rows.sort()
         return " ".join(r[1] for r in rows) if rows else "-"
 
-    def canon(self, entries, d):
+    def pdr_bit(self, so):
+        e = self.r.location_table.get_entry(addr_of(so))
+        return int(e is not None and e.pdr > self.r.mib.itsGnMaxPacketDataRate * 1000)
+
+    def buf_str(self, wire):
+        out = []
+        for k, t in self.r._cbf_buffer.items():
+            x = f"{k[0].encode_to_int()}:{k[1]}"
+            if wire:
+                pdu = bytes(t.args[1]) if len(getattr(t, "args", [])) > 1 else b"\0"
+                x += ":" + (f"S{self.mid(pdu[4:])}" if pdu[0] & 0x0F == 2 else "P")
+            out.append(x)
+        return " ".join(out)
+
+    def canon(self, entries, d, wire=False, buf=None):
         out = []
         for idx, e in enumerate(entries):
             if e[0] == "send":
+                if wire and e[1][0] & 0x0F == 2:
+                    # what `_forward_pdu` builds for a packet received secured: Basic Header + a secured message
+                    out.append(f"sends {e[1][3]} {self.mid(e[1][4:])}")
+                    continue
                 q = decode(e[1])
                 if q["so"] == self.self_addr and q["kind"] == "ls_reply":
                     out.append(f"reply {q['de']}")
@@ -275,31 +480,68 @@ class Station:
                 out.append(f"arm {e[1][0]} {e[1][1]} {e[2]}")
             elif e[0] == "cancel":
                 out.append(f"cancel {e[1][0]} {e[1][1]}")
-        buf = " ".join(f"{k[0].encode_to_int()}:{k[1]}" for k in self.r._cbf_buffer)
-        return (" | ".join(out) if out else "-") + " # " + buf
+        return (" | ".join(out) if out else "-") + " # " + (self.buf_str(wire) if buf is None else buf)
 
-    def rx(self, fr, now):
-        """returns (canonical output, raw log entries, model line)"""
+    def wire_frame(self, plain_fr: bytes, mode, gen_ms):
+        return SecWorld.get().secure(plain_fr, mode, gen_ms) if mode else bytes(plain_fr)
+
+    def rx(self, fr, now, opts=None):
+        """one frame from the link layer.  `fr` is the unsecured form of the frame unless it already carries NH = 2;
+        `opts`: sec (None or a mode of SEC_MODES: the frame is received secured), cb (the indication callback raises), thr
+        (receive thread), nest (a second reception [frame hex, T, opts] performed on ANOTHER thread while this one sits in
+        its indication callback).  Returns (canonical output, raw log entries, model line, decoded packet); the result of a
+        nested reception is left in `self.nested_result`.  Re-entrant."""
+        opts = opts or {}
         self.set_now(now)
+        if fr[0] & 0x0F == 2:
+            wire_fr = bytes(fr)                         # put on the ether by another station (topologies)
+        else:
+            wire_fr = self.wire_frame(fr, opts.get("sec"), opts.get("gen", now))
+        sec = int(wire_fr[0] & 0x0F == 2)
         d = decode(fr)
-        self.log, self.f_calls, self.greedy_calls = [], [], []
+        d["sec"] = sec
+        d["wire"] = wire_fr
+        # expectation BY CONSTRUCTION (independent of the code): is the frame handed to the handlers?
+        d["gate"] = int((self.has_verify and (opts.get("sec") in SEC_OK or (fr[0] & 0x0F == 2))) if sec else not self.enabled)
+        saved = (self.log, self.f_calls, self.greedy_calls, list(_AREA_CALLS), self.verdicts)
+        self.log, self.f_calls, self.greedy_calls, self.verdicts = [], [], [], []
         del _AREA_CALLS[:]
+        self.cb_raises = bool(opts.get("cb"))
+        self.nested_result, self.snap, self.cur_so = None, None, d["so"]
+        thr = int(opts.get("thr", 0))
+        nest = opts.get("nest")
+        if nest:
+            nfr, nopts = bytes.fromhex(nest[0]), dict(nest[2] or {})
+            nopts.pop("nest", None)
+            if int(nopts.get("thr", 0)) in (0, thr):
+                nopts["thr"] = thr + 1          # a nested reception runs on a receive thread of its own
+            self.nested = lambda: self.rx(nfr, now, nopts)
         with rs.quiet():
-            self.r.gn_data_indicate(fr)
+            self.on_thread(thr, lambda: self.r.gn_data_indicate(wire_fr))
+        inner = self.nested_result if self.nested is None else None     # None when the callback was never reached
+        snap = self.snap
+        self.nested, self.snap = None, None
+        self.cb_raises = False
         entries = self.log
-        self.log = []
         inside = int(bool(self.f_calls) and self.f_calls[0] >= 0) if d["kind"] in ("gbc", "gac") else 0
         extra = self.f_calls[2:] if d["kind"] == "gbc" else self.f_calls[1:]
         sin = int(bool(extra) and extra[-1] >= 0)
         big = int(bool(_AREA_CALLS) and _AREA_CALLS[-1] > self.r.mib.itsGnMaxGeoAreaSize * 1_000_000)
-        e = self.r.location_table.get_entry(addr_of(d["so"]))
-        pdr = int(e is not None and e.pdr > self.r.mib.itsGnMaxPacketDataRate * 1000)
+        pdr = self.pdr_bit(d["so"]) if snap is None or inner is None else snap[1]
         greedy = int(self.greedy_calls[-1]) if self.greedy_calls else 1
         ms = next((x[2] for x in entries if x[0] == "arm"), 0)
-        line = f"rx {pkt_str(d)} {inside} {big} {pdr} {sin} {greedy} {ms} {now}"
-        return self.canon(entries, d), entries, line, d
+        vok = int(bool(self.verdicts) and self.verdicts[0] is not None and getattr(self.verdicts[0], "value", 1) == 0)
+        self.log, self.f_calls, self.greedy_calls, area_calls, self.verdicts = saved
+        _AREA_CALLS[:] = area_calls
+        d["pdr"] = pdr
+        d["env"] = f"{inside} {big} {pdr} {sin} {greedy} {ms}"
+        d["vok"] = vok
+        m = self.mid(wire_fr[4:]) if sec else 0
+        line = f"wrx {thr} {sec} {m} {vok} {int(bool(opts.get('cb')))} {pkt_str(d)} {d['env']} {now}"
+        self.nested_result = inner
+        return self.canon(entries, d, wire=True, buf=snap[0] if (snap is not None and inner is not None) else None), entries, line, d
 
-    def fire(self, key):
+    def fire(self, key, wire=True):
         self.log = []
         t = self.timers.pop(key, None)
         if t is None:
@@ -309,7 +551,7 @@ class Station:
                 t.fire()
         entries = self.log
         self.log = []
-        return self.canon(entries, None), entries, f"fire {key[0]} {key[1]}"
+        return self.canon(entries, None, wire=wire), entries, f"wfire {key[0]} {key[1]}"
 
 
 # ------------------------------------------------------------------------------------------------ oracle
@@ -340,6 +582,8 @@ class StationOracle:
         self.pdr_skips = 0
         self.pdr_checked = 0
         self.pdr_bad = []
+        self.sec_msgs = {}    # secured message received -> (so, sn) of the packet it belongs to
+        self.gate_bad = []    # SN-VERIFY outcome recorded from the run differs from what the frame was built to be
 
     EXT_LEN = {"beacon": 24, "shb": 28, "tsb": 28, "gbc": 44, "gac": 44, "guc": 48, "ls_request": 36, "ls_reply": 48}
 
@@ -376,10 +620,18 @@ class StationOracle:
         self.bad.append((what, kf))
 
     def rx(self, fr, d, T_so, now, entries, pdr_bit=None):
+        """`fr`: the frame as received from the link layer (secured: Basic Header + secured message), `d`: its decoded view"""
         so, sn, kind = d["so"], d["sn"], d["kind"]
         key = (so, sn)
         acts = [e[0] for e in entries]
+        if d.get("sec") and "vok" in d and int(d["vok"]) != int(d["gate"]):
+            self.gate_bad.append(f"secured {kind} ({so},{sn}): built to be {'accepted' if d['gate'] else 'rejected'}, "
+                                 f"SN-VERIFY of the station reported {'SUCCESS' if d['vok'] else 'no success'}")
+        if not d.get("gate", 1):
+            return  # not handed to the handlers (itsGnSecurity gate / verification): no claim of C06; the model says 'nothing'
         self.loct.expire(now)
+        if d.get("sec"):
+            self.sec_msgs.setdefault(bytes(fr[4:]), key)
         if mid_of(so) == mid_of(self.me):
             if entries:
                 self.flag(f"packet bearing the station's own address caused {acts}")
@@ -394,7 +646,7 @@ class StationOracle:
         ep = self.epoch[so]
         self.loct.pkt(kind, so, T_so, d["lat"], d["lon"], sn, now)
         if kind not in MULTI:
-            self.pdr_ref(fr, d, was_alive, pdr_bit)
+            self.pdr_ref(plain_view(fr)[0] if d.get("sec") else fr, d, was_alive, pdr_bit)
             return
         win = self.window.setdefault(so, [])
         hit = next((x for x in win if x[0] == sn), None)
@@ -416,11 +668,11 @@ class StationOracle:
             win.remove(hit)
         win.append((sn, ep))
         del win[:-self.L]
-        self.pdr_ref(fr, d, was_alive, pdr_bit)
+        self.pdr_ref(plain_view(fr)[0] if d.get("sec") else fr, d, was_alive, pdr_bit)
         # accepted (or re-accepted under KF1): judge the actions
         c = self.count.setdefault(key, [0, 0])
         sends = [e for e in entries if e[0] == "send"]
-        own = [e for e in sends if decode(e[1])["so"] == self.me]
+        own = [e for e in sends if (try_decode(e[1]) or {}).get("so") == self.me and e[1][0] & 0x0F != 2]
         sends = [e for e in sends if e not in own]
         to_me = mid_of(d["de"]) == mid_of(self.me)
         if own and not (kind in ("ls_request", "ls_reply") and to_me):
@@ -465,8 +717,12 @@ class StationOracle:
         if d["rhl"] <= 1:
             self.flag(f"{what} a {d['kind']} received with RHL {d['rhl']} (sent RHL {sent[3]})")
             return
-        if len(sent) != len(cause):
-            self.flag(f"{what} copy differs in length from its cause")
+        if len(sent) != len(cause) or (sent[0] & 0x0F) != (cause[0] & 0x0F):
+            stale = self.sec_msgs.get(bytes(sent[4:])) if sent[0] & 0x0F == 2 else None
+            self.flag(f"{what} copy of {d['kind']} ({d['so']},{d['sn']}) is not the received packet: {len(sent)} octets with "
+                      f"Basic Header NH {sent[0] & 15}, received {len(cause)} octets with NH {cause[0] & 15}"
+                      + (f" - behind the Basic Header it carries the secured message of the earlier packet {stale}"
+                         if stale is not None and stale != (d['so'], d['sn']) else ""))
             return
         if sent[3] != d["rhl"] - 1:
             self.flag(f"{what} copy has RHL {sent[3]}, received {d['rhl']}")
@@ -474,6 +730,10 @@ class StationOracle:
             self.flag(f"{what} copy has RHL {sent[3]} > MHL {d['mhl']}")
         diff = [i for i in range(len(sent)) if sent[i] != cause[i] and i != 3]
         if not diff:
+            return
+        if d.get("sec"):
+            self.flag(f"{what} copy of a packet received secured differs from it at byte offsets {diff[:8]} (only the RHL of "
+                      f"the Basic Header may change; everything behind it is signed)")
             return
         if d["kind"] in ("guc", "ls_reply") and all(40 <= i < 60 for i in diff):
             q = decode(sent)
@@ -509,6 +769,10 @@ def gen_single(rng, n_ops):
     cfg = dict(lifetime_s=lifetime_s, dpl=rng.choice([1, 2, 3, 4, 8, 16, rng.randrange(1, 17)]), cbf=rng.randrange(2),
                pdr_max=rng.choice([10**9, 10**9, 10**9, 0, 1, 20, 200]),
                base=rng.choice([rng.randrange(10**9, 10**12), rng.randrange(3, 99) * W - rng.randrange(0, 3 * L)]))
+    # security: [verify service configured, itsGnSecurity ENABLED]; a station with a verify service and itsGnSecurity
+    # DISABLED accepts secured and unsecured packets side by side
+    cfg["sec"] = rng.choice([[0, 0], [0, 0], [0, 0], [1, 0], [1, 0], [1, 0], [1, 1]])
+    secure_p = {(0, 0): 0.04, (1, 0): 0.4, (1, 1): 0.75}[tuple(cfg["sec"])]
     me = addr_int(1)
     n_src = rng.randrange(2, 6)
     srcs = [addr_int(10 + i) for i in range(n_src)]
@@ -522,8 +786,66 @@ def gen_single(rng, n_ops):
     third = addr_int(77)
     next_sn = {a: rng.choice([0, 65530, rng.randrange(65536)]) for a in others + own + [third]}
     ops, sent, now = [], [], cfg["base"]
+
+    def fresh(kind, a, rhl, mhl, T, inside):
+        la, lo = pos.get(a, EGO)
+        kw = dict(sn=next_sn[a], rhl=rhl, mhl=mhl, payload=b"r4", scf=rng.random() < 0.15)
+        next_sn[a] = (next_sn[a] + 1) % 65536
+        if kind in ("gbc", "gac"):
+            c = EGO if inside else FAR
+            kw["area"] = (c[0], c[1], 500, 500, 0)
+        if kind in ("guc", "ls_reply"):
+            kw["de"] = spv(rng.choice(srcs + [third]), now + rng.randrange(-3000, 3000), 7, 8)
+        if kind == "ls_request":
+            kw["de"] = rng.choice(srcs + [third])
+        fr = frame(kind, lpv(a, T, la, lo), **kw)
+        if kind in MULTI:
+            sent.append((fr.hex(), [a, kw["sn"]], T))
+        return fr, kw["sn"]
+
     for _ in range(n_ops):
         x = rng.random()
+        if cfg["sec"][0] and rng.random() < 0.10:
+            # a VERIFIED secured packet whose dispatch is aborted after the verification (indication callback raises / hop
+            # limit above MHL) or not, then the next packet(s): unsecured or secured, on the same or on the other receive
+            # thread, possibly INSIDE the indication callback of the first one (on another thread), CBF copies fired later
+            t1 = rng.randrange(2)
+            a = rng.choice(srcs)
+            k1 = rng.choice(["tsb", "tsb", "gbc", "shb", "guc", "gac", "ls_request"])
+            fault = rng.choice(["cb", "cb", "mhl", "none"])
+            rhl1 = rng.choice([2, 3, 5])
+            if rng.random() < 0.5:
+                ops.append(["ego", EGO[0], EGO[1], 1, "swap", now])
+            T1 = now - rng.randrange(0, 300)
+            fr1, sn1 = fresh(k1, a, rhl1, rhl1 - 1 if fault == "mhl" else 10, T1, True)
+            o1 = {"sec": rng.choice(["d", "c"]), "gen": now, "thr": t1}
+            if fault == "cb":
+                o1["cb"] = 1
+            first = ["rx", fr1.hex(), T1, now, o1]
+            ops.append(first)
+            later = []
+            for j in range(rng.randrange(1, 3)):
+                b = rng.choice([z for z in srcs if z != a])
+                k2 = rng.choice(["tsb", "tsb", "gbc", "gbc", "guc", "ls_request", "ls_reply", "gac"])
+                T2 = now - rng.randrange(0, 300)
+                fr2, sn2 = fresh(k2, b, rng.choice([2, 3, 4, 10]), 10, T2, rng.random() < 0.7)
+                o2 = {"thr": rng.choice([t1, t1, 1 - t1])}
+                if rng.random() < 0.25:
+                    o2.update(sec=rng.choice(["d", "c", "bad"]), gen=now)
+                if rng.random() < 0.15:
+                    o2["cb"] = 1
+                if j == 0 and rng.random() < 0.3:
+                    o1["nest"] = [fr2.hex(), T2, dict(o2, thr=2)]
+                else:
+                    now += rng.randrange(0, 50)
+                    ops.append(["rx", fr2.hex(), T2, now, o2])
+                if k2 == "gbc":
+                    later.append(["fire", [b, sn2]])
+            if k1 == "gbc":
+                later.append(["fire", [a, sn1]])
+            rng.shuffle(later)
+            ops += [z for z in later if rng.random() < 0.8]
+            continue
         if x < 0.12:
             now += rng.choice([0, 1, rng.randrange(0, 500), rng.randrange(0, 500), rng.randrange(0, 3 * L)])
             continue
@@ -618,8 +940,24 @@ def gen_single(rng, n_ops):
         if kind in MULTI:
             sent.append((fr.hex(), [a, kw["sn"]], T))
         ops.append(["rx", fr.hex(), T, now])
-    for k in {tuple(s[1]) for s in sent[-4:]}:
+    for k in sorted({tuple(s[1]) for s in sent[-4:]}):
         ops.append(["fire", list(k)])
+    # which frames arrive secured (decided once per distinct frame so that an exact duplicate is the same secured frame,
+    # now and then per reception: the same packet once with, once without its envelope), faults, receive thread
+    sec_of = {}
+    for op in ops:
+        if op[0] != "rx" or len(op) > 4:
+            continue
+        if op[1] not in sec_of or rng.random() < 0.1:
+            sec_of[op[1]] = ({"sec": rng.choice(["d", "d", "d", "c", "c", "bad", "unk", "junk"]), "gen": op[3]}
+                             if rng.random() < secure_p else {})
+        o = dict(sec_of[op[1]])
+        if rng.random() < 0.1:
+            o["cb"] = 1
+        if rng.random() < 0.1:
+            o["thr"] = 1
+        if o:
+            op.append(o)
     return {"kind": "single", "cfg": cfg, "self": me, "ops": ops, "ego": list(EGO)}
 
 
@@ -630,38 +968,52 @@ def run_single(case, clock, with_oracle=True):
     orc = StationOracle(case["self"], case["cfg"])
     outs, lines, bad = [], [], []
     cfg = case["cfg"]
-    lines.append(f"cfg {case['self']} {cfg['lifetime_s'] * 1000} {cfg['dpl']} {cfg['cbf']}")
+    lines.append(f"wcfg {case['self']} {cfg['lifetime_s'] * 1000} {cfg['dpl']} {cfg['cbf']} {st.has_verify} {st.enabled}")
     outs.append("ok")
-    for i, op in enumerate(case["ops"]):
-        if op[0] == "ego":
-            st.ego(op[1], op[2], op[3], op[4], op[5])
-            continue
-        table = False
-        if op[0] == "rx":
-            fr = bytes.fromhex(op[1])
-            out, entries, line, d = st.rx(fr, op[3])
-            if with_oracle:
-                orc.rx(fr, d, op[2], op[3], entries, int(line.split(" ")[17]))
-            table = d["kind"] == "ls_reply" or (i * 7 + len(op[1])) % 19 == 0
-        elif op[0] == "lsreq":
-            out, entries, line = st.lsreq(op[1], op[2], op[3])
-            if with_oracle:
-                orc.lsreq(op[1], op[2])
-            table = True
-        else:
-            key = (op[1][0], op[1][1])
-            out, entries, line = st.fire(key)
-            if with_oracle:
-                orc.fire(key, entries)
-        outs.append(out)
-        lines.append(line)
-        if table:
-            # location table (incl. the ls_pending flags) after Location Service steps and now and then otherwise
-            outs.append(st.dump())
-            lines.append("table")
-        for what, kf in orc.bad:
-            bad.append((i, what, kf))
-        orc.bad = []
+    try:
+        for i, op in enumerate(case["ops"]):
+            if op[0] == "ego":
+                st.ego(op[1], op[2], op[3], op[4], op[5])
+                continue
+            table = False
+            if op[0] == "rx":
+                fr = bytes.fromhex(op[1])
+                opts = op[4] if len(op) > 4 else None
+                res = st.rx(fr, op[3], opts)
+                steps = [(res, op[2])]
+                if st.nested_result is not None:
+                    # a second reception happened on another thread inside the indication callback of the first one
+                    steps.append((st.nested_result, opts["nest"][1]))
+                for (out, entries, line, d), T in steps:
+                    if with_oracle:
+                        orc.rx(d["wire"], d, T, op[3], entries, d["pdr"])
+                    outs.append(out)
+                    lines.append(line)
+                    table = table or d["kind"] == "ls_reply"
+                table = table or (i * 7 + len(op[1])) % 19 == 0
+            elif op[0] == "lsreq":
+                out, entries, line = st.lsreq(op[1], op[2], op[3])
+                if with_oracle:
+                    orc.lsreq(op[1], op[2])
+                table = True
+                outs.append(out)
+                lines.append(line)
+            else:
+                key = (op[1][0], op[1][1])
+                out, entries, line = st.fire(key)
+                if with_oracle:
+                    orc.fire(key, entries)
+                outs.append(out)
+                lines.append(line)
+            if table:
+                # location table (incl. the ls_pending flags) after Location Service steps and now and then otherwise
+                outs.append(st.dump())
+                lines.append("table")
+            for what, kf in orc.bad:
+                bad.append((i, what, kf))
+            orc.bad = []
+    finally:
+        st.close()
     return outs, lines, bad, orc
 
 
@@ -682,6 +1034,20 @@ def shrink(case, clock):
         if first_bad(trial, clock) is not None:
             ops = trial["ops"]
         i -= 1
+    # then the options of the remaining receptions: nested reception, fault, thread
+    for i, op in enumerate(ops):
+        if op[0] != "rx" or len(op) < 5:
+            continue
+        for k in ("nest", "cb", "thr"):
+            if k in op[4] and budget > 0:
+                budget -= 1
+                o = {a: b for a, b in op[4].items() if a != k}
+                trial_ops = ops[:i] + [op[:4] + ([o] if o else [])] + ops[i + 1:]
+                if first_bad(dict(case, ops=trial_ops), clock) is not None:
+                    ops = trial_ops
+                    op = ops[i]
+                    if len(op) < 5:
+                        break
     return dict(case, ops=ops)
 
 
@@ -691,7 +1057,9 @@ def check_single(ctx, case, clock, use_model=True):
     reported = False
     for i, what, kf in bad:
         if kf is None and not reported:
-            small = shrink(dict(case, ops=case["ops"][:i + 1]), clock)
+            small = dict(case, ops=case["ops"][:i + 1])
+            if len(ctx.violations) < 3:          # only the first three are written out: do not shrink the rest
+                small = shrink(small, clock)
             fb = first_bad(small, clock)
             ctx.violation(fb[1] if fb else what, small)
             reported = True
@@ -704,6 +1072,8 @@ def check_single(ctx, case, clock, use_model=True):
     ctx.cover("tolerance_skips", orc.pdr_skips)
     for w in orc.pdr_bad[:1]:
         ctx.mismatch("router.pdr_reference", {"case": case}, w, "annex B.2 reference")
+    for w in orc.gate_bad[:1]:
+        ctx.mismatch("router.verify_outcome", {"case": case}, w, "outcome by construction of the secured message")
     if tuple(case.get("ego", EGO))[1] < 0:
         ctx.cover("scene_negative_coordinates")
     for line, out in zip(lines[1:], outs[1:]):
@@ -716,11 +1086,35 @@ def check_single(ctx, case, clock, use_model=True):
             for a in out.split(" # ")[0].split(" | "):
                 ctx.cover("act_" + a.split(" ")[0])
             continue
-        ctx.cover("op_" + (t[1] if t[0] == "rx" else "fire"))
+        ctx.cover("op_" + (t[6] if t[0] == "wrx" else "fire"))
         for a in out.split(" # ")[0].split(" | "):
             ctx.cover("act_" + a.split(" ")[0])
-        if t[0] == "rx":
-            ctx.cover(f"rhl_{t[2] if int(t[2]) < 3 else '3+'}")
+        if t[0] == "wrx":
+            ctx.cover(f"rhl_{t[7] if int(t[7]) < 3 else '3+'}")
+            if t[2] == "1":
+                ctx.cover("rx_secured_" + ("verified" if t[4] == "1" else "rejected"))
+            if t[5] == "1":
+                ctx.cover("fault_callback_raises" + ("_secured" if t[2] == "1" and t[4] == "1" else ""))
+            if t[2] == "1" and t[4] == "1" and int(t[7]) > int(t[8]):
+                ctx.cover("fault_hop_limit_after_verification")
+            if t[1] != "0":
+                ctx.cover("rx_on_second_thread")
+    # the class the seeded change C06-m6 lives in: a verified secured packet whose dispatch was aborted, then a forwarded
+    # unsecured packet on the same thread
+    aborted = {}
+    for line, out in zip(lines[1:], outs[1:]):
+        t = line.split(" ")
+        if t[0] != "wrx":
+            continue
+        acts = out.split(" # ")[0]
+        if t[2] == "1" and t[4] == "1":
+            aborted[t[1]] = int(t[7]) > int(t[8]) or (t[5] == "1" and "deliver" in acts)
+        elif t[2] == "0":
+            if aborted.get(t[1]) and "send " in acts:
+                ctx.cover("unsecured_forward_after_aborted_secured_same_thread")
+            aborted[t[1]] = False
+    ctx.cover("op_nested_rx", sum(1 for op in case["ops"] if op[0] == "rx" and len(op) > 4 and op[4].get("nest")))
+    ctx.cover("cfg_sec_%d%d" % tuple(int(x) for x in case["cfg"].get("sec", (0, 0))))
     ctx.cover("cfg_cbf" if case["cfg"]["cbf"] else "cfg_simple")
     ctx.cover(f"dpl_len_{case['cfg']['dpl']}")
     n1 = sum(1 for v in orc.count.values() if v[0] > 0)
@@ -758,10 +1152,17 @@ def gen_topo(rng):
     else:
         adj = {i: sorted({(i - 1) % n, (i + 1) % n} - {i}) for i in range(n)}
     cfg = dict(lifetime_s=20, dpl=rng.choice([1, 2, 8]), cbf=rng.randrange(2), pdr_max=10**9, base=rng.randrange(10**9, 10**12))
+    # a quarter of the networks consists of stations with a verify service (itsGnSecurity DISABLED: secured and unsecured
+    # floods side by side); their secured floods are forwarded hop by hop WITH the envelope and verified again at every hop
+    secure = rng.random() < 0.25
+    if secure:
+        cfg["sec"] = [1, 0]
     floods = []
     for o in rng.sample(range(n), rng.randrange(1, 4)):
         floods.append(dict(kind=rng.choice(["tsb", "gbc", "tsb", "gbc", "ls_request"]), origin=o, sn=rng.randrange(65536),
                            rhl=rng.choice([1, 2, 3, n, 10, 255]), dup_origin=rng.random() < 0.3))
+        if secure and rng.random() < 0.6:
+            floods[-1]["sec"] = rng.choice(["d", "c"])
     if rng.random() < 0.2:
         # a second packet of the same origin: with a short duplicate packet list the window hypothesis of the network
         # theorem fails at stations that hear both, and the global bounds are then not claimed
@@ -847,6 +1248,8 @@ def run_topo(case, clock):
         if fl["kind"] == "ls_request":
             kw["de"] = addr_int(999)
         fr = frame(fl["kind"], lpv(addrs[o], now, pos[o][0], pos[o][1]), **kw)
+        if fl.get("sec"):
+            fr = SecWorld.get().secure(fr, fl["sec"], now)
         originate(fr, o, now)
         if fl["dup_origin"]:
             originate(fr, o, now)
@@ -907,7 +1310,8 @@ def run_topo(case, clock):
             j = rng.randrange(len(air)) if rng.random() < 0.3 else 0
             i, fr, hops, T = air.pop(j)
             now += rng.randrange(0, 3)
-            out, entries, line, d = sts[i].rx(fr, now)
+            _, entries, line, d = sts[i].rx(fr, now)
+            out = sts[i].canon(entries, d)
             orcs[i].rx(fr, d, T, now, entries)
             rx_log[i].append((d, T, now))
             hop_check(d, hops, f"station {i} received")
@@ -918,14 +1322,14 @@ def run_topo(case, clock):
             if d["kind"] in MULTI:
                 dl_count[k] = dl_count.get(k, 0) + sum(1 for e in entries if e[0] == "deliver")
             rcv, new = put_on_air(i, entries, hops + 1, T)
-            env = " ".join(line.split(" ")[15:21])
+            env = d["env"]
             lines.append(f"nrx {j} {env} {now} " + " ".join(map(str, rcv)))
             outs.append(f"st {i} | rx {pkt_str(d)} hops {hops} | {out} | new {new} | air {len(air)} | "
                         f"tx {tx_count.get(k, 0)} dl {dl_count.get(k, 0)}")
         else:
             # a pending timer expires - or, now and then, one that was cancelled (expiry racing with the cancellation)
             i, key = dead[rng.randrange(len(dead))] if dead and (not pending or rng.random() < 0.15) else pending[rng.randrange(len(pending))]
-            out, entries, line = sts[i].fire(key)
+            out, entries, line = sts[i].fire(key, wire=False)
             orcs[i].fire(key, entries)
             rcv, new = put_on_air(i, entries, buf_hops.get((i, key), 0), now)
             k = (i, key[0], key[1])
@@ -975,6 +1379,9 @@ def check_topo(ctx, case, clock, use_model=True):
         ctx.extra.setdefault("_batch", []).append((case, outs, lines))
     ctx.cover(f"topo_{case['shape']}_{case['n']}")
     ctx.cover(f"topo_medium_{case.get('medium', 'ideal')}")
+    if case["cfg"].get("sec"):
+        ctx.cover("topo_verifying_stations")
+        ctx.cover("topo_secured_floods", sum(1 for f in case["floods"] if f.get("sec")))
     ctx.cover("topo_transmissions", stats["tx"])
     ctx.cover("flood_hyp_true", stats["hyp_true"])
     ctx.cover("flood_hyp_false", stats["hyp_false"])
@@ -1001,8 +1408,11 @@ class Patched:
 def run(ctx):
     ctx.extra["rule"] = ("single-station histories (fresh / exact duplicate / replayed frames of 6 multi-hop kinds from 2-5 "
                          "sources incl. own address, RHL 0..255, MHL >=/< RHL, SN wrap, DPL length 1..16, SIMPLE and CBF with "
-                         "harness-fired timers, beacons/SHB for neighbour state, clock steps up to 3 lifetimes) and floods on "
-                         "line/ring/mesh topologies of 3-5 real routers; distinct_nontrivial counts distinct histories/topologies")
+                         "harness-fired timers, beacons/SHB for neighbour state, clock steps up to 3 lifetimes; stations with / "
+                         "without a verify service and itsGnSecurity on/off, frames received unsecured or secured with 5 kinds "
+                         "of envelope, dispatch aborted after verification, two receive threads, nested receptions) and floods "
+                         "(secured ones too) on line/ring/mesh topologies of 3-5 real routers; distinct_nontrivial counts "
+                         "distinct histories/topologies")
     with Patched() as clock:
         wit = next((k.get("witness") for k in ctx.known if k["id"] == "C06-KF1"), None)
         if wit:
@@ -1015,12 +1425,12 @@ def run(ctx):
             elif c.get("kind") == "topo":
                 check_topo(ctx, c, clock)
             ctx.cover("corpus_cases")
-        for i in range(ctx.scale(250, 20000)):
+        for i in range(ctx.scale(250, 9000)):       # (real ECDSA verification on about a third of the receptions)
             case = gen_single(ctx.rng, ctx.rng.randrange(5, ctx.scale(50, 120)))
             check_single(ctx, case, clock)
             if i == 0:
                 ctx.sample("single", {"cfg": case["cfg"], "n_ops": len(case["ops"])})
-        for i in range(ctx.scale(40, 6000)):
+        for i in range(ctx.scale(40, 3000)):
             case = gen_topo(ctx.rng)
             check_topo(ctx, case, clock)
             if i == 0:
@@ -1039,11 +1449,11 @@ def search(ctx):
                     check_single(ctx, inp["case"], clock, use_model=False)
                 elif isinstance(inp, dict) and isinstance(inp.get("case"), dict) and inp["case"].get("kind") == "topo":
                     check_topo(ctx, inp["case"], clock, use_model=False)
-            for _ in range(ctx.scale(750, 30000)):
+            for _ in range(ctx.scale(750, 12000)):
                 if ctx.violations:
                     break
                 check_single(ctx, gen_single(ctx.rng, ctx.rng.randrange(5, 60)), clock, use_model=False)
-            for _ in range(ctx.scale(120, 6000)):
+            for _ in range(ctx.scale(120, 3000)):
                 if ctx.violations:
                     break
                 check_topo(ctx, gen_topo(ctx.rng), clock, use_model=False)
